@@ -35,3 +35,94 @@ choose_alg = Spec(
             'UnicodeDecodeError': lambda c: disjoint_z(*_client_server(c))},
     returns='opaque:Alg')
 choose_alg.opaque_native = {'Alg': 'bytes'}
+
+
+# ===================================================================== (b0) _recv_version
+# RFC 4253 4.2: the identification string is terminated by CR LF (a lone LF is tolerated for compatibility) and
+# "the part of the identification string preceding the Carriage Return and Line Feed is used in the
+# Diffie-Hellman key exchange".  So the value recorded for the peer (and later hashed as V_C / V_S) must be the
+# received line, byte for byte, minus exactly that terminator - nothing else may be normalised.
+from pyvc.engine import Out
+from pyvc.values import *
+from .common import ROLE_STUBS
+
+_CR, _LF = z3.Unit(z3.IntVal(13)), z3.Unit(z3.IntVal(10))
+
+RV_CONN = {'_is_client': 'bool', '_inpbuf': 'bytes', '_client_version': 'bytes', '_server_version': 'bytes',
+           '_kexinit_sent': 'bool', '_recv_handler': 'tag', '_banner_lines': 'int'}
+
+
+def _peer_own_version(c, new=True):
+    """(peer's version field, own version field)"""
+    f = c.new if new else c.old
+    isc = z3.simplify(c.old('_is_client'))
+    if z3.is_true(isc):
+        return f('_server_version'), f('_client_version')
+    if z3.is_false(isc):
+        return f('_client_version'), f('_server_version')
+    return (z3.If(isc, f('_server_version'), f('_client_version')),
+            z3.If(isc, f('_client_version'), f('_server_version')))
+
+
+def _no_lf(v):
+    return z3.Not(z3.Contains(v, _LF))
+
+
+def wire_exact(c, v):
+    """v is the first received line without its CR LF / LF terminator, and exactly that line was consumed"""
+    old, new = c.old('_inpbuf'), c.new('_inpbuf')
+    return z3.And(_no_lf(v),
+                  z3.Or(old == z3.Concat(v, _CR, _LF, new),
+                        z3.And(old == z3.Concat(v, _LF, new), z3.Not(z3.SuffixOf(_CR, v)))))
+
+
+def rv_version_exact(c):
+    """whenever the handshake goes on (our KEXINIT is sent), the peer version recorded is the wire line"""
+    if not c.events('send_kexinit'):
+        return z3.BoolVal(True)
+    return wire_exact(c, _peer_own_version(c)[0])
+
+
+def rv_version_frame(c):
+    """received bytes never change our own version string; the peer's is either untouched or the exact line"""
+    peer_new, own_new = _peer_own_version(c)
+    peer_old, own_old = _peer_own_version(c, new=False)
+    return z3.And(own_new == own_old, z3.Or(peer_new == peer_old, wire_exact(c, peer_new)))
+
+
+def rv_version_is_ssh2(c):
+    """the handshake goes on only for protocol version 2.0 / 1.99 identification strings (RFC 4253 4.2, 5.1)"""
+    if not c.events('send_kexinit'):
+        return z3.BoolVal(True)
+    v = _peer_own_version(c)[0]
+    return z3.Or(z3.PrefixOf(bytes_const(b'SSH-2.0-'), v), z3.PrefixOf(bytes_const(b'SSH-1.99-'), v))
+
+
+recv_version = Spec(
+    'C03', 'connection', 'SSHConnection._recv_version', self_class='SSHConnection',
+    classes={'SSHConnection': RV_CONN},
+    stubs=dict(ROLE_STUBS, **{
+        'self._force_close': noop('force_close'),
+        'self.set_extra_info': noop(),
+        'self._send_kexinit': noop('send_kexinit'),
+    }),
+    tags=['find-qf', 'lit-slice'],     # quantifier-free model of bytes.find, x[:-1] -> len(x)-1 (solver help only)
+    # the three length / count limits are generalised to arbitrary positive values (the property does not depend
+    # on them; with the literal 8192 the solver has to build 8 KiB witnesses).  Replays patch the module constants.
+    globals={'_MAX_BANNER_LINE_LEN': VInt(z3.Int('MAX_BANNER_LINE_LEN')),
+             '_MAX_VERSION_LINE_LEN': VInt(z3.Int('MAX_VERSION_LINE_LEN')),
+             '_MAX_BANNER_LINES': VInt(z3.Int('MAX_BANNER_LINES'))},
+    requires=lambda c: z3.And(z3.Int('MAX_BANNER_LINE_LEN') >= 1, z3.Int('MAX_VERSION_LINE_LEN') >= 1,
+                              z3.Int('MAX_BANNER_LINES') >= 1),
+    ensures=[('peer-version-is-the-wire-line', rv_version_exact),
+             ('only-ssh2-versions-proceed', rv_version_is_ssh2)],
+    always=[('version-fields-frame', rv_version_frame)],
+    # a non-ASCII byte in the line: escapes to _recv_data, which turns it into internal_error() (no KEXINIT sent)
+    raises={'UnicodeDecodeError': lambda c: z3.BoolVal(not c.events('send_kexinit'))},
+    returns='bool')
+recv_version.patch_globals = ['_MAX_BANNER_LINE_LEN', '_MAX_VERSION_LINE_LEN', '_MAX_BANNER_LINES']
+recv_version.feasible_timeout_ms = 150     # pruning only; z3 is slow to find witnesses for these word equations
+recv_version.cvc5_first = True             # ... and cvc5 settles them in milliseconds
+recv_version.model_timeout_ms = 2500       # cross-check witness search budget per path
+recv_version.lazy_byte_ranges = True
+recv_version.confirm_retries = 2           # counter-model search for a refuted obligation: 3 seeds
